@@ -14,7 +14,7 @@ from . import arrays, sym
 from .arrays import ShapeError
 from .loader import AnalysisError, FunctionInfo, Module, Project
 from .sym import Expr
-from .values import (is_bucket_family, bucket_root, bucket_handle, bucket_family_like, Opt, Alt, Arr, Bag, Blocks, Concat, DiagMat, DictV, FuncV, ModV, NoneV, ObjV, Sc, Seq, Space, StrV,
+from .values import (PSet, is_bucket_family, bucket_root, bucket_handle, bucket_family_like, Opt, Alt, Arr, Bag, Blocks, Concat, DiagMat, DictV, FuncV, ModV, NoneV, ObjV, Sc, Seq, Space, StrV,
                      Unknown, Val, fix, fresh, generic_elem, rng, rows, shape_of, subspace)
 
 
@@ -391,6 +391,10 @@ class Interp:
             if a.elem == eb:
                 return a
             return Arr(a.axes, sym.ITE(c, a.elem, eb), a.kind)
+        if isinstance(a, PSet) and isinstance(b, PSet):
+            return a if a.pred == b.pred else PSet(sym.ITE(c, a.pred, b.pred))
+        if isinstance(a, DictV) and isinstance(b, DictV) and _same_abstract(a, b):
+            return a  # a dictionary neither arm touched
         if isinstance(a, NoneV) and isinstance(b, NoneV):
             return a
         if isinstance(a, NoneV) and not isinstance(b, (Alt, Unknown)):
@@ -1012,6 +1016,11 @@ class Interp:
                 else:
                     if new is cur[n] or _same_abstract(new, cur[n]):
                         post[n] = cur[n]
+                    elif isinstance(new, DictV) and isinstance(cur[n], DictV) and not cur[n].d and not new.d:
+                        # a dictionary filled under computed keys inside the loop (a copy of it, if the body branched): its
+                        # generic entry already stands for 'whatever some trip stored'
+                        post[n] = new
+                        loop_rec["carried"][n] = dict(kind="dict-fill", value=new)
                     else:
                         j = self.join_cond(sym.Opq("config", (), "loop-ran"), new, cur[n])
                         if not _same_abstract(j, cur[n]):
@@ -1186,7 +1195,10 @@ class Interp:
         name = target.value.id if isinstance(target.value, ast.Name) else None
         if isinstance(base, DictV):
             key = idx[0]
-            if key[0] == "str":
+            if key[0] == "str" and key[1] in ("<formatted>", "<f-string>"):
+                # a key rendered from a value: one entry per value, all described by the generic entry
+                base.generic = v if base.generic is None or _same_abstract(base.generic, v) else Alt([base.generic, v])
+            elif key[0] == "str":
                 base.d[key[1]] = v
             elif key[0] == "int":
                 base.d[key[1]] = v
@@ -1669,8 +1681,8 @@ class Interp:
             dv.key_kind = "str" if isinstance(kv, StrV) else "other"
             if isinstance(kv, Sc) and isinstance(vv, Sc) and kv.e is not None and vv.e is not None and iv is not None:
                 dv.keymap = (kv.e, vv.e, iv, sp)
-            self.event("store", n, base=dv, idx=[("str", "<formatted>")] if isinstance(kv, StrV) else [("expr", generic_elem(kv))],
-                       value=vv, target=None)
+            self.event("store", n, base=dv, idx=[("str", "<formatted>", kv.arg)] if isinstance(kv, StrV) else [("expr", generic_elem(kv))],
+                       value=vv, target=None, comp_ivar=iv, comp_space=sp)
             return dv
         if isinstance(n, ast.Lambda):
             fr = self.frames[-1]
@@ -1720,6 +1732,14 @@ class Interp:
             self.path.append(c)
         v = self.eval(n.elt, sub)
         del self.path[k:]
+        if isinstance(n, ast.SetComp) and isinstance(n.elt, ast.Name) and isinstance(g.target, ast.Name) \
+                and n.elt.id == g.target.id and isinstance(it, ObjV) and it.tag == "range" and iv is not None \
+                and it.attrs["lo"].e == sym.ZERO:
+            # {j for j in range(n) if c(j)}: the set of positions below n on which c holds
+            e_ = sym.IV(PSet.VAR)
+            pred = sym.And(sym.Cmp(">=", e_, sym.ZERO), sym.Cmp("<", e_, it.attrs["hi"].e),
+                           *[sym.subst_ivar(c, iv, (PSet.VAR, 0)) for c in conds])
+            return PSet(pred)
         conds = [c for c in conds if self.decide(c) is not True]
         if conds or isinstance(n, ast.SetComp):
             cond = sym.And(*conds) if conds else sym.TRUE
@@ -2143,6 +2163,10 @@ def _clone_env(env: dict) -> dict:
             memo[k] = n
             n.items = [cl(x) for x in v.items]
             return n
+        if isinstance(v, PSet):
+            n = PSet(v.pred)
+            memo[k] = n
+            return n
         if isinstance(v, Arr):
             n = Arr(v.axes, v.elem, v.kind, v.uid)
             for a in ("flat_of", "bucket_order", "bucket_sorted_over"):
@@ -2283,8 +2307,15 @@ def _same_abstract(a: Val, b: Val) -> bool:
         return a.elem == eb
     if isinstance(a, NoneV) and isinstance(b, NoneV):
         return True
+    if isinstance(a, PSet) and isinstance(b, PSet):
+        return a.pred == b.pred
     if isinstance(a, DictV) and isinstance(b, DictV):
-        return a.d == b.d and a.generic is b.generic
+        if set(a.d) != set(b.d):
+            return False
+        if not all(_same_abstract(a.d[k], b.d[k]) for k in a.d):
+            return False
+        return a.generic is b.generic or (a.generic is not None and b.generic is not None
+                                          and _same_abstract(a.generic, b.generic))
     if isinstance(a, ObjV) and isinstance(b, ObjV):
         return a.tag == b.tag and a.cls == b.cls and a.tag is not None
     return False
